@@ -493,6 +493,12 @@ def C14(ctx):
     if not ctx.quick:
         model_check(ctx, "MC_DTreeAlgo", "MC_DTreeAlgo_4.cfg", "DTreeAlgo: 19 032 CNFs of <= 3 clauses over 4 variables x 24 orders", workers=12, timeout=1800)
         model_check(ctx, "MC_DTreeAlgo", "MC_DTreeAlgo_5.cfg", "DTreeAlgo: CNFs of <= 5 clauses (binary clauses, units, an empty clause) over 3 variables x 6 orders", workers=12, timeout=1800)
+    # design level: min_fill_order / force_order as transcribed (OrderAlgo): a permutation comes out for every CNF of a family, the greedy
+    # choice eliminates chordal graphs without fill edges, FORCE stops within (initial span / #clauses) + 1 rounds
+    model_check(ctx, "MC_OrderAlgo", "MC_OrderAlgo_3q.cfg", "OrderAlgo: min-fill + FORCE as coded on 2 500 CNFs of <= 3 clauses over 3 variables (repeated variables, both polarities)", workers=6, timeout=900)
+    if not ctx.quick:
+        model_check(ctx, "MC_OrderAlgo", "MC_OrderAlgo_4q.cfg", "OrderAlgo: 700 CNFs of <= 3 positive clauses over 4 variables", workers=8, timeout=1800)
+        model_check(ctx, "MC_OrderAlgo", "MC_OrderAlgo_4.cfg", "OrderAlgo: 9 954 CNFs of <= 4 positive clauses over 4 variables", workers=12, timeout=3000)
     # proof (TLAPS, any number of variables and extensions): the two tables of a VarOrder (new + new_last as coded) stay mutually inverse
     proof_check(ctx, "VarOrderProof", "VarOrder::new / new_last keep var_to_pos and pos_to_var mutually inverse bijections, fresh label last")
     n = 4 if ctx.quick else 30 * TH
